@@ -1,6 +1,9 @@
 package twig
 
-import "strconv"
+import (
+	"strconv"
+	"sync"
+)
 
 // Nondeterminism / assertion API of the harnesses. The symbolic engine (symx) intercepts these
 // functions by name; the bodies below are the native implementation used for replay: values are
@@ -60,7 +63,20 @@ func symMarkReadonly(root interface{}, label string) {}
 func symMarkShared(root interface{}, label string)   {}
 func symConcurrentPhase(on bool)                     {}
 func symPoolModel(model int)                         {}
-func symTag(t string)                                { vhObserved = append(vhObserved, "tag:"+t) }
+
+// symParallel runs f and g concurrently. The symbolic engine runs them as two threads and explores
+// the interleavings at synchronisation points (bounded number of switches); natively they are two
+// goroutines.
+func symParallel(f, g func()) {
+	var wg sync.WaitGroup
+	start := make(chan struct{})
+	wg.Add(2)
+	go func() { defer wg.Done(); <-start; f() }()
+	go func() { defer wg.Done(); <-start; g() }()
+	close(start)
+	wg.Wait()
+}
+func symTag(t string) { vhObserved = append(vhObserved, "tag:"+t) }
 
 func symParam(name string, def int) int {
 	if v, ok := vhParams[name]; ok {
